@@ -12,7 +12,7 @@
 
   OBLIGATIONS (audited by `check` with `#print axioms`):
     chunk_invariant, records_wellformed, torn_only_after_fault, calm_plan_no_torn, acked_durable, acked_never_lost,
-    failed_batch_rewritten, reuse_recovers, recovery_separator_first
+    failed_batch_rewritten, reuse_recovers, recovery_separator_first, emit_appends_separator
 -/
 import EmitModel.Lemmas.FileSetCalm
 
@@ -258,6 +258,31 @@ theorem recovery_separator_first (cfg : Config) (plan : Nat → Fault) (a a' : A
       a'.name = a.name := by
   obtain ⟨h1, _, _, h4, h5, _, _⟩ := writeEvent_ok h
   exact ⟨h1, h5, h4⟩
+
+/-- **`emit` hands the worker well-formed events** (`FileSetInner::emit`): whatever the writer produced, the
+    buffer sent to the worker ends with the separator; and for a one-byte separator `c` and a writer output `p`
+    that does not contain `c` (the JSON writer escapes control characters), with or without a trailing `c` of its
+    own, the buffer is `p ++ [c]` — an event in the sense of `WfEvents`. -/
+theorem emit_appends_separator (sep buf : List Nat) :
+    sep <:+ finishEvent sep buf ∧
+      ∀ c p, sep = [c] → c ∉ p → (buf = p ∨ buf = p ++ [c]) → finishEvent sep buf = p ++ [c] := by
+  constructor
+  · unfold finishEvent
+    split
+    · rename_i h; exact List.isSuffixOf_iff_suffix.mp h
+    · exact List.suffix_append _ _
+  · rintro c p rfl hc (rfl | rfl)
+    · unfold finishEvent
+      have : ([c].isSuffixOf buf) = false := by
+        cases h : [c].isSuffixOf buf with
+        | false => rfl
+        | true =>
+          have := List.isSuffixOf_iff_suffix.mp h
+          exact absurd (this.subset (by simp)) hc
+      simp [this]
+    · unfold finishEvent
+      have : ([c].isSuffixOf (p ++ [c])) = true := List.isSuffixOf_iff_suffix.mpr (List.suffix_append _ _)
+      simp [this]
 
 /-! ### the hypotheses are satisfiable -/
 
